@@ -164,6 +164,24 @@ func rotate(a []int, k int) []int {
 func (w *World) biasedSet(r *Rng, st *State, live []H, picks []int) []H {
 	hs := w.pickHashes(live, picks)
 	L := st.Layout()
+	if len(live) > 200 && r.Pct(35) {
+		// a wide forest: a request for 130..260 leaves in no particular order
+		k := 130 + r.Intn(131)
+		if k > len(live) {
+			k = len(live)
+		}
+		idx := make([]int, len(live))
+		for i := range idx {
+			idx[i] = i
+		}
+		r.Shuffle(len(idx), func(i, j int) { idx[i], idx[j] = idx[j], idx[i] })
+		hs = hs[:0]
+		for _, i := range idx[:k] {
+			hs = append(hs, live[i])
+		}
+		w.stats.Reach["query_with_more_than_128_targets"]++
+		return hs
+	}
 	// bias: every live leaf of a whole tree / of the subtree under an internal
 	// node (such a set has few or no proof hashes of its own)
 	if m := r.Intn(10); m < 3 && len(hs) > 0 {
